@@ -34,7 +34,7 @@ func c05MapFor(seed int64, batch, i int) *lexgen.GMap {
 	return lexgen.GenMap(r, &lexgen.MapOpts{Supported: true, MaxStates: 1 + i%4, Elide: i%3 == 0, Plain: i%4 == 1})
 }
 
-func c05Count(tier string) int { return pick(tier, 120, 300) }
+func c05Count(tier string) int { return pick(tier, 120, 700) }
 
 type c05GenFail struct {
 	Index int    `json:"index"`
